@@ -13,7 +13,8 @@ LEVEL = ("Mechanism level, strongest of the set: every clause is a gate an attac
          "CID-typed field of the stored aggregates has a check_reference obligation derived from the ADT facts; every "
          "use of a stored service result / canon result is re-verified against the computed call parameters before its "
          "consumers; peers without signature are rejected; salt flows from particle_id on both sides. "
-         "Cryptographic soundness and completeness of the tamper catalogue are not decided.")
+         "Cryptographic soundness and completeness of the tamper catalogue are not decided."
+         " Added: reference checks run once per store entry / list element (loop depth), compile-fail witness for the phantom-typed CID, helper- and closure-insensitive formulations.")
 
 
 def cid_reference_obligations(ctx, F):
